@@ -50,7 +50,8 @@ A = [H.build_text([("inc", "b.td"), ("raw", "class A : B;"), ("raw", ANON_A)]),
      H.build_text([("raw", "class A;")])]
 B = [H.build_text([("raw", "class B;")]),
      H.build_text([("inc", "c.td"), ("raw", "class B : C;"), ("raw", ANON_B)]),
-     H.build_text([("inc", "a.td"), ("raw", "class B;")])]
+     H.build_text([("inc", "a.td"), ("raw", "class B;")]),
+     H.build_text([("inc", "a.td"), ("raw", "def d : A;")])]      # mutual include a <-> b: diagnostics depend on which one is the root
 SHARED = H.build_text([("raw", "class Shared;")])                  # the same text sent for two different documents
 OPS = [("a.td", t) for t in A + [SHARED]] + [("b.td", t) for t in B + [SHARED]]
 DISK = [["a.td", A[2]], ["b.td", B[0]], ["c.td", H.build_text([("raw", "class C;")])]]
@@ -258,7 +259,7 @@ def run(ctx):
         "histories": ran,
         "fresh_hosts_started": stats["fresh_hosts"],
         "distinct_nontrivial": len(stats["nontrivial"]),
-        "rule": "every history of length %d over {a.td, b.td} x 4 texts each (include added / removed / retargeted on the same range, cycle, "
+        "rule": "every history of length %d over {a.td, b.td} x 4-5 texts each (include added / removed / retargeted on the same range, cycle with root-order dependent diagnostics, "
                 "root switches, one text common to both documents; c.td only on disk) = %d histories, plus %d random histories (2..%d touches over 2..5 files, 3 texts per file: "
                 "includes nested in blocks, missing targets, INCLUDE_DIR, semantic references across files, syntax errors); "
                 "EVERY step of every history is compared with a fresh host; non-trivial = distinct history prefix whose last step changed the root, "
